@@ -18,7 +18,7 @@ static const char *const it_names[] = {"SimpleInv", "SimpleInvPiv", "BlockLU", "
 // FORM 0: inverse<IT>(A)            1: inverse<IT>(A + 0) (expression argument)
 // FORM 2: X = inv(A) (lazy)         3: X += inv(A) on a zero tensor (lazy, compound assignment)   [2,3: SimpleInv only]
 template <class T, size_t N, int IT, int FORM>
-void thunk(const T *a, T *x) {
+void thunk(const T *a, T *x) { vf::ArmedThunk vf_armed_;
   constexpr InvCompType it = static_cast<InvCompType>(IT);
   Tensor<T, N, N> A; std::copy(a, a + N * N, A.data());
   if constexpr (FORM == 0) { Tensor<T, N, N> X = inverse<it>(A); std::copy(X.data(), X.data() + N * N, x); }
@@ -76,7 +76,7 @@ void inv(vf::Draw &d, vf::Ctx &ctx) { inv_driver<T>(d, ctx, N, IT, FORM, &thunk<
 // UL 0: tinverse<SimpleInv, UpLoType::UniLower>(L)    1: tinverse<SimpleInv, UpLoType::Upper>(U)   (the two implemented tags)
 // ARG 0: tensor argument   1: expression argument (L + 0)
 template <class T, size_t N, int UL, int ARG>
-void tthunk(const T *a, T *x) {
+void tthunk(const T *a, T *x) { vf::ArmedThunk vf_armed_;
   Tensor<T, N, N> A; std::copy(a, a + N * N, A.data());
   Tensor<T, N, N> X;
   if constexpr (UL == 0) { if constexpr (ARG == 0) X = tinverse<InvCompType::SimpleInv, UpLoType::UniLower>(A); else X = tinverse<InvCompType::SimpleInv, UpLoType::UniLower>(A + T(0)); }
@@ -133,7 +133,7 @@ void tinv(vf::Draw &d, vf::Ctx &ctx) { tinv_driver<T>(d, ctx, N, UL, ARG, &tthun
 
 // ---- batched inverse over the trailing two axes of a rank-3 / rank-4 tensor ------------------------
 template <class T, size_t J, size_t B0, size_t B1>
-void bthunk(const T *a, T *x) {
+void bthunk(const T *a, T *x) { vf::ArmedThunk vf_armed_;
   if constexpr (B1 == 0) { Tensor<T, B0, J, J> A; std::copy(a, a + B0 * J * J, A.data()); Tensor<T, B0, J, J> X = inverse(A); std::copy(X.data(), X.data() + B0 * J * J, x); }
   else { Tensor<T, B0, B1, J, J> A; std::copy(a, a + B0 * B1 * J * J, A.data()); Tensor<T, B0, B1, J, J> X = inverse(A); std::copy(X.data(), X.data() + B0 * B1 * J * J, x); }
 }
